@@ -313,10 +313,10 @@ func TestC01(t *testing.T) {
 	defer r.Finish(t)
 	var targets []Target
 	targets = append(targets, ParrotTargets(false)...)
-	for i := 0; i < mon.Pick(60, 1500); i++ {
+	for i := 0; i < mon.Pick(60, 5000); i++ {
 		targets = append(targets, RandomizedTarget(i))
 	}
-	for i := 0; i < mon.Pick(60, 1500); i++ {
+	for i := 0; i < mon.Pick(60, 5000); i++ {
 		targets = append(targets, CustomTarget(i))
 	}
 	seqs := mon.Pick(6, 60)
